@@ -4790,12 +4790,13 @@ int main(int argc, char** argv) {
             auto finalize_fetch = [&](const ephemeralnet::daemon::ControlResponse& response) -> bool {
                 const auto reported_size = response.fields.contains("SIZE") ? response.fields.at("SIZE") : "0";
                 if (response.has_payload) {
-                    if (decoded_manifest.has_value()) {
-                        const auto digest = ephemeralnet::crypto::Sha256::digest(
-                            std::span<const std::uint8_t>(response.payload.data(), response.payload.size()));
-                        if (digest != decoded_manifest->chunk_hash) {
-                            return false;
-                        }
+                    if (!decoded_manifest.has_value()) {
+                        return false;
+                    }
+                    const auto digest = ephemeralnet::crypto::Sha256::digest(
+                        std::span<const std::uint8_t>(response.payload.data(), response.payload.size()));
+                    if (digest != decoded_manifest->chunk_hash) {
+                        return false;
                     }
                     try {
                         std::ofstream out(resolved_output, std::ios::binary | std::ios::trunc);
@@ -5271,7 +5272,9 @@ int main(int argc, char** argv) {
                     print_daemon_hint(*local_response);
                     return 0;
                 }
-                local_error = "Daemon returned a payload that does not match the manifest hash";
+                local_error = decoded_manifest.has_value()
+                                  ? "Daemon returned a payload that does not match the manifest hash"
+                                  : "Manifest could not be decoded, so the daemon's payload cannot be verified";
             } else if (local_response && !local_response->success) {
                 const auto message_it = local_response->fields.find("MESSAGE");
                 if (message_it != local_response->fields.end() && !message_it->second.empty()) {
